@@ -19,7 +19,7 @@ import (
 
 func init() {
 	register("C08",
-		"NONCE: cipherState.nonce is written only by the deferred closures of Encrypt/Decrypt (exactly +1, in a defer, hence on every exit) and by InitializeKey (=0, together with a new secretKey and cipher, so a nonce never restarts under the same key); AEAD Seal/Open are called only from Encrypt/Decrypt with a nonce buffer filled from cipherState.nonce; rotateKey derives the next key from an HKDF keyed by the old key and re-initialises with it. ROT-SIB: the deferred closures of Encrypt and Decrypt are structurally identical (same increment, same comparison against keyRotationInterval, same rotateKey call), so both ends rotate at the same record count. KEYSEP (as C02/C04): split() gives the two directions different keys from one HKDF expansion, mirrored between the roles. PAIR: every successful return of ReadHeader/ReadBody has passed its Decrypt and of WriteMessage both Encrypts; WriteMessage encrypts exactly twice with sendCipher (2-byte header, body) and ReadHeader/ReadBody decrypt exactly once each with recvCipher; no other function uses the transport ciphers; every Encrypt output of WriteMessage is stored into the pending record on every path to a return (a refused or failed write never consumes a nonce); encHeaderSize = lengthHeaderSize + macSize. TAINT-WIRE: everything written to a transport writer or to the handshake act buffer is an Encrypt/EncryptAndHash result, the cleartext version byte, or a public/masked ephemeral key; the pending-record slices only ever hold Encrypt results. DUPLEX (as C05): the read path and the write path of Machine touch disjoint fields and Encrypt seals into a fresh buffer, so a pending record is never overwritten by an incoming one. NONCE aead-result: every return of Encrypt/Decrypt has passed Seal/Open and hands out that call's output (no pass-through leg for an unkeyed cipher). PAIR also: every successful return of ReadMessage has passed ReadHeader and ReadBody and the reader is handed to nothing else. KEYSEP also: split expands with the chaining key as the HKDF key and empty input. NONCE also: InitializeKey is called from the key schedule only. KEYSEP also: no production code configures an ephemeral key generator (default btcec.NewPrivateKey, assigned once). The framing obligations of C16 are imported as LAYER/C16. NARROW: no +, -, *, << in package mailbox is evaluated in an 8/16-bit integer type unless the operand ranges prove it cannot wrap (record lengths near the maximum). NONCE also: the ratchet starts from the key in use - secretKey has one store, of InitializeKey's key parameter, and rotateKey's HKDF input key is that field. Not decided: that ciphertexts differ (cryptographic), decryption 'to exactly what was written' as a property of streams (follows from ROT-SIB + PAIR + the AEAD).",
+		"NONCE: cipherState.nonce is written only by the deferred closures of Encrypt/Decrypt (exactly +1, in a defer, hence on every exit) and by InitializeKey (=0, together with a new secretKey and cipher, so a nonce never restarts under the same key); AEAD Seal/Open are called only from Encrypt/Decrypt with a nonce buffer filled from cipherState.nonce; rotateKey derives the next key from an HKDF keyed by the old key and re-initialises with it. ROT-SIB: the deferred closures of Encrypt and Decrypt are structurally identical (same increment, same comparison against keyRotationInterval, same rotateKey call), so both ends rotate at the same record count. KEYSEP (as C02/C04): split() gives the two directions different keys from one HKDF expansion, mirrored between the roles. PAIR: every successful return of ReadHeader/ReadBody has passed its Decrypt and of WriteMessage both Encrypts; WriteMessage encrypts exactly twice with sendCipher (2-byte header, body) and ReadHeader/ReadBody decrypt exactly once each with recvCipher; no other function uses the transport ciphers; every Encrypt output of WriteMessage is stored into the pending record on every path to a return (a refused or failed write never consumes a nonce); encHeaderSize = lengthHeaderSize + macSize. TAINT-WIRE: everything written to a transport writer or to the handshake act buffer is an Encrypt/EncryptAndHash result, the cleartext version byte, or a public/masked ephemeral key; the pending-record slices only ever hold Encrypt results. DUPLEX (as C05): the read path and the write path of Machine touch disjoint fields and Encrypt seals into a fresh buffer, so a pending record is never overwritten by an incoming one. NONCE aead-result: every return of Encrypt/Decrypt has passed Seal/Open and hands out that call's output (no pass-through leg for an unkeyed cipher). PAIR also: every successful return of ReadMessage has passed ReadHeader and ReadBody and the reader is handed to nothing else. KEYSEP also: split expands with the chaining key as the HKDF key and empty input. NONCE also: InitializeKey is called from the key schedule only. KEYSEP also: no production code configures an ephemeral key generator (default btcec.NewPrivateKey, assigned once). The framing obligations of C16 are imported as LAYER/C16. NARROW: no +, -, *, << in package mailbox is evaluated in an 8/16-bit integer type unless the operand ranges prove it cannot wrap (record lengths near the maximum). NONCE also: the ratchet starts from the key in use - secretKey has one store, of InitializeKey's key parameter, and rotateKey's HKDF input key is that field. The obligations of C15 (stream adapters on top of ReadMessage: counts, retained tails, session reset, guard table) are imported. Not decided: that ciphertexts differ (cryptographic), decryption 'to exactly what was written' as a property of streams (follows from ROT-SIB + PAIR + the AEAD).",
 		[]string{"ChaCha20-Poly1305 is a secure AEAD; HKDF-SHA256 is a PRF; binary.LittleEndian.PutUint64 writes its argument"},
 		runC08)
 	register("C02",
